@@ -24,6 +24,7 @@ from framework import Failure
 from proto import on_grid
 from praatio import pitch_and_intensity as PI
 from praatio.utilities import my_math
+import piops as PIO   # generatePIMeasures (DESIGN 11.8)
 
 RULE = ("stepfilt/median: every series over {1,2,3} of length 0..5 (quick; {1,2,3,4} and 0..6 in thorough) x windows 0..8 x "
         "padding, plus sampled series of length 6..15 with ties and constant runs, random ints, 2-digit decimals and k/64 "
@@ -83,6 +84,8 @@ def call(fn):
 # protocol
 # ------------------------------------------------------------------------------------------------
 def wants_x(c):
+    if PIO.is_pi(c):
+        return PIO.wants_x(c)
     if c.get("nomodel") or not c.get("grid", False):
         return False
     if c["op"] == "detect":
@@ -118,6 +121,12 @@ def parse_field(s):
 
 def encode(c, enc):
     op = c["op"]
+    if PIO.is_pi(c):
+        return PIO.encode(c, enc)
+    if op == "znormwin":
+        # model of znormWindowFilter with its inner znormalizeCenterVal (PIMeasures.lean, DESIGN 11.8): WHETHER and WHAT it
+        # raises and the length of the result; the values need `statistics` and stay with the oracle
+        return f"znormwin_shape {enc_list(enc, c['xs'])} {c['w']} {enc.b(c['pad'])} {enc.b(c['fz'])}"
     if c.get("nomodel"):
         return "skip"
     if op == "stepfilt":
@@ -160,6 +169,8 @@ _counter = itertools.count()
 
 def impl(c):
     op = c["op"]
+    if PIO.is_pi(c):
+        return PIO.impl(c)
     if op == "stepfilt":
         xs = list(c["xs"])
         if c["f"] == "median":
@@ -208,6 +219,10 @@ def impl(c):
 
 def render(c, r, enc):
     op = c["op"]
+    if PIO.is_pi(c):
+        return PIO.render(c, r, enc)
+    if op == "znormwin":
+        return "err " + r[1] if r[0] == "err" else f"ok {len(r[1])}"
     if c.get("nomodel"):
         return "ok skip"
     if r[0] == "err":
@@ -315,6 +330,8 @@ def load_expected(c):
 
 def oracle(c, r):
     op = c["op"]
+    if PIO.is_pi(c):
+        return PIO.oracle(c, r)
     sig = {"op": op}
     if op == "stepfilt":
         sig["f"] = c["f"]
@@ -495,6 +512,8 @@ def oracle(c, r):
 # ------------------------------------------------------------------------------------------------
 def tags(c, r):
     op = c["op"]
+    if PIO.is_pi(c):
+        return PIO.tags(c, r)
     out = [op, "model" if not c.get("nomodel") else "oracle-only"]
     if r[0] == "err":
         out.append(f"{op}:err:{r[1]}")
@@ -523,6 +542,8 @@ def tags(c, r):
 
 def nontrivial(c, r):
     op = c["op"]
+    if PIO.is_pi(c):
+        return PIO.nontrivial(c, r)
     if r[0] == "err":
         return True
     if op == "stepfilt":
@@ -537,6 +558,10 @@ def nontrivial(c, r):
 
 
 def shrink(c):
+    if PIO.is_pi(c):
+        for i in range(len(c["data"])):
+            yield dict(c, data=c["data"][:i] + c["data"][i + 1:])
+        return
     for key in ("xs", "pl", "rows"):
         if key in c:
             l = c[key]
@@ -569,6 +594,7 @@ def perturb(c, rnd):
 # corpus and generators
 # ------------------------------------------------------------------------------------------------
 def corpus():
+    yield from PIO.corpus()
     doc = [1, 1, 1, 9, 5, 2, 4, 7, 4, 5, 1, 5]
     yield {"op": "stepfilt", "f": "median", "xs": doc, "w": 5, "pad": False, "grid": True}   # docstring example
     yield {"op": "stepfilt", "f": "median", "xs": doc, "w": 5, "pad": True, "grid": True}
@@ -658,7 +684,8 @@ def gen_stats(rnd, tier):
         xs = [rnd.choice([0.0, 0, round(rnd.uniform(50, 200), 1)]) if rnd.random() < 0.25 else round(rnd.uniform(50, 200), 1) for _ in range(n)]
         if not fz and rnd.random() < 0.5:
             xs = series(rnd, rnd.choice(["dec", "int", "ties"]), n)
-        yield {"op": "znormwin", "xs": xs, "w": rnd.randint(2, 8), "pad": rnd.random() < 0.6, "fz": fz, "nomodel": True}
+        yield {"op": "znormwin", "xs": xs, "w": rnd.randint(2, 8) if rnd.random() < 0.9 else rnd.randint(0, 1), "pad": rnd.random() < 0.6, "fz": fz,
+               "nomodel": True}
     for _ in range(300 * k):
         kind = rnd.choice(["ties", "int", "dec", "grid"])
         yield {"op": "rms", "xs": series(rnd, kind, rnd.randint(0, 15)), "nomodel": True}
@@ -771,6 +798,7 @@ def gen_load(rnd, tier):
 
 
 def gen(rnd, tier):
+    yield from PIO.gen(rnd, 6000 if tier == "thorough" else 600)
     yield from gen_stepfilt(rnd, tier)
     yield from gen_stats(rnd, tier)
     yield from gen_pitch(rnd, tier)
